@@ -278,7 +278,7 @@ def _build(d, maxsteps):
 def strategy(tier):
     steps = 30 if tier == 'quick' else 60
     return decoded(lambda d: _build(d, steps), min_size=48,
-                   max_size=200 if tier == 'quick' else 400)
+                   max_size=320 if tier == 'quick' else 500)
 
 
 def budget(tier):
